@@ -1,6 +1,7 @@
 import Percival.Proofs.Parsenum
 import Percival.Proofs.Humansize
 import Percival.Proofs.ParsenumFloat
+import Percival.Proofs.IeeeStrtod
 /-!
 # C16 — numeric text parsing is exact
 
@@ -102,42 +103,139 @@ example : IntTy.signed .i16 = true := rfl
 `FAccepts trailing s neg sub` is the language of ISO C 2011 §7.22.1.3 (`Spec/FloatNumeral.lean`): white
 space, sign, then a decimal or hexadecimal floating numeral of exact rational value `q` (`sub = .num q`),
 or `inf` / `infinity` (`.inf`), or `nan` / `nan(…)` (`.nan`); the whole string, or — with trailing
-characters allowed — the longest such prefix.  `toDouble neg sub` is the libc model's conversion of that
-exact value to `double` (round to nearest even, ±inf + ERANGE on overflow, ERANGE on a tiny inexact result).
+characters allowed — the longest such prefix.
 
-Full statement: as below with "`toDouble` is the correctly rounded value".  The theorems are named
-`…_partial` because exactly that is missing: `Model.Strtod.roundTo` is an *implementation* of
-round-to-nearest-even that is not proved to return the nearest representable number (P3 `strtod_nearest`
-in the design); it is compared with the real libc on every run (exact values, inexact decimals,
-midpoints between adjacent doubles, double → float double rounding, overflow).  Everything else — the
-grammar, longest-prefix behaviour, the malformed / range / errno logic of `parsenum.h`, the
-classification of the target as floating point, NaN passing every bound, the narrowing assignment —
-is proved for all strings and bounds. -/
+`Spec/Ieee.lean` says what the conversion must deliver, without any algorithm: `Converts neg sub d` —
+`d` is the binary64 datum nearest to the exact value, ties to the even significand, ±inf from the IEEE
+overflow threshold on, the sign of the numeral in every case; `ConvRangeError neg sub` — glibc's `ERANGE`
+rule (overflow, or inexact and tiny after rounding); `Narrows d v` — `v` is `(float)d`, the binary32 datum
+nearest-even to `d`.  The libc model's rounding algorithm (`Model.Strtod.toDouble`, `toBinary32`) is
+proved to satisfy these for every rational input (`strtod_correctly_rounded`, `strtod_erange_iff`,
+`float_assignment_correctly_rounded`), the specification determines its result
+(`correct_rounding_unique`), and the two `parsenum` theorems are stated against the specification alone.
+What remains trusted is that the *real* libc's `strtod` is correctly rounding and follows that `ERANGE`
+rule; this is observed at L1 on every run. -/
 
 section floats
 open Percival.Spec.FloatNumeral Percival.Model.Strtod Percival.Model.ParsenumFloat Percival.Proofs.ParsenumFloat
+open Percival.Spec.Ieee Percival.Proofs.Ieee
 
-/-- Success with `v` exactly when the string is a floating numeral whose `double` value lies within the
-    bounds (no overflow / underflow reported), `v` being that value stored into the target. -/
-theorem parsenum_float_ok_iff_partial (t : FTy) (bs : List UInt8) (min max : Fl) (trailing : Bool) (v : Fl) :
+/-- `strtod`'s conversion (the libc model) returns the correctly rounded `double` of the exact value of
+    the numeral: the nearest finite binary64 number, the even one on a tie, ±inf exactly from
+    `2^1023·(2 − 2^-53)` on, sign preserved — for every rational magnitude `q ≥ 0` and sign. -/
+theorem strtod_correctly_rounded (neg : Bool) (q : Rat) (hq : 0 ≤ q) :
+    RoundsTo binary64 neg q (toDouble neg (.num q)).1 :=
+  toDouble_converts neg (.num q) hq
+
+-- 0.1 → 3602879701896397 · 2^-55
+example : RoundsTo binary64 false (1 / 10) (.fin false (3602879701896397 / 36028797018963968)) := by
+  have h := strtod_correctly_rounded false (1 / 10) (by decide +kernel)
+  rwa [show (toDouble false (.num (1 / 10))).1 = .fin false (3602879701896397 / 36028797018963968) by decide +kernel] at h
+-- 9007199254740993 = 2^53 + 1 is a midpoint: ties to the even 2^53
+example : RoundsTo binary64 true 9007199254740993 (.fin true 9007199254740992) := by
+  have h := strtod_correctly_rounded true 9007199254740993 (by decide +kernel)
+  rwa [show (toDouble true (.num 9007199254740993)).1 = .fin true 9007199254740992 by decide +kernel] at h
+-- 0x1.8p-1074 (1.5 × the smallest subnormal) ties to the even 2 · 2^-1074; 2^1024 overflows
+set_option exponentiation.threshold 2000 in
+example : RoundsTo binary64 false (3 / ((2 ^ 1075 : Nat) : Rat)) (.fin false (2 / ((2 ^ 1074 : Nat) : Rat))) := by
+  have h := strtod_correctly_rounded false (3 / ((2 ^ 1075 : Nat) : Rat)) (by decide +kernel)
+  rwa [show (toDouble false (.num (3 / ((2 ^ 1075 : Nat) : Rat)))).1 = .fin false (2 / ((2 ^ 1074 : Nat) : Rat)) by decide +kernel] at h
+set_option exponentiation.threshold 2000 in
+set_option linter.constructorNameAsVariable false in      -- the linter itself runs out of stack on 2^1024
+example : RoundsTo binary64 false ((2 ^ 1024 : Nat) : Rat) (.inf false) := by
+  have h := strtod_correctly_rounded false ((2 ^ 1024 : Nat) : Rat) (by decide +kernel)
+  rwa [show (toDouble false (.num ((2 ^ 1024 : Nat) : Rat))).1 = .inf false by decide +kernel] at h
+
+/-- `strtod` (the libc model) leaves `ERANGE` exactly when the specification's range error holds:
+    the exact value is at or above the overflow threshold, or it is below `2^-1022·(1 − 2^-54)` in
+    magnitude (tiny after rounding) and not a binary64 number (inexact). -/
+theorem strtod_erange_iff (neg : Bool) (sub : Subject) (h : ∀ q, sub = .num q → 0 ≤ q) :
+    (toDouble neg sub).2 = .erange ↔ ConvRangeError neg sub :=
+  toDouble_erange_iff neg sub (by cases sub <;> simp_all [SubjectNonneg])
+
+-- 0x0.fffffffffffffbp-1022 rounds to 2^-1022 but is tiny after rounding: ERANGE;
+-- 0x0.fffffffffffffcp-1022 is not tiny; 2^-1074 is exact; 2^1024 overflows
+set_option exponentiation.threshold 2000 in
+example : ConvRangeError false (.num (0xfffffffffffffb / ((2 ^ 1078 : Nat) : Rat))) :=
+  (strtod_erange_iff _ _ (fun _ h => by cases h; decide +kernel)).mp (by decide +kernel)
+set_option exponentiation.threshold 2000 in
+example : ¬ ConvRangeError false (.num (0xfffffffffffffc / ((2 ^ 1078 : Nat) : Rat))) := fun h =>
+  absurd ((strtod_erange_iff _ _ (fun _ h => by cases h; decide +kernel)).mpr h) (by decide +kernel)
+set_option exponentiation.threshold 2000 in
+example : ¬ ConvRangeError true (.num (1 / ((2 ^ 1074 : Nat) : Rat))) := fun h =>
+  absurd ((strtod_erange_iff _ _ (fun _ h => by cases h; decide +kernel)).mpr h) (by decide +kernel)
+set_option exponentiation.threshold 2000 in
+example : ConvRangeError true (.num ((2 ^ 1024 : Nat) : Rat)) :=
+  (strtod_erange_iff _ _ (fun _ h => by cases h; decide +kernel)).mp (by decide +kernel)
+
+/-- the assignment of the `double` result to a `float` target (the model's `toBinary32`) is the correct
+    second rounding: nearest-even binary32 number, ±inf from `2^127·(2 − 2^-24)` on. -/
+theorem float_assignment_correctly_rounded (d : Fl) (h : ∀ n mag, d = .fin n mag → 0 ≤ mag) :
+    Narrows d (toBinary32 d) :=
+  toBinary32_narrows d (by cases d <;> simp_all [FlNonneg])
+
+-- (float)16777217.0 = 2^24 (tie to even); (float)1e39 = +inf
+example : Narrows (.fin false 16777217) (.fin false 16777216) := by
+  have h := float_assignment_correctly_rounded (.fin false 16777217) (fun _ _ h => by cases h; decide +kernel)
+  rwa [show toBinary32 (.fin false 16777217) = .fin false 16777216 by decide +kernel] at h
+example : Narrows (.fin true (10 ^ 39)) (.inf true) := by
+  have h := float_assignment_correctly_rounded (.fin true (10 ^ 39)) (fun _ _ h => by cases h; decide +kernel)
+  rwa [show toBinary32 (.fin true (10 ^ 39)) = .inf true by decide +kernel] at h
+
+/-- the specification is not ambiguous: at most one datum is the correctly rounded value (of two
+    equally near numbers exactly one has an even significand) -/
+theorem correct_rounding_unique (neg : Bool) (sub : Subject) (d d' v v' : Fl)
+    (h1 : Converts neg sub d) (h2 : Converts neg sub d') (h3 : Narrows d v) (h4 : Narrows d v') :
+    d = d' ∧ v = v' :=
+  ⟨converts_unique h1 h2, narrows_unique h3 h4⟩
+
+example : Converts false (.num (1 / 10)) (.fin false (3602879701896397 / 36028797018963968)) ∧
+    Narrows (.fin false (3602879701896397 / 36028797018963968)) (.fin false (13421773 / 134217728)) := by
+  have h1 := strtod_correctly_rounded false (1 / 10) (by decide +kernel)
+  have h2 := float_assignment_correctly_rounded (.fin false (3602879701896397 / 36028797018963968))
+    (fun _ _ h => by cases h; decide +kernel)
+  rw [show (toDouble false (.num (1 / 10))).1 = .fin false (3602879701896397 / 36028797018963968) by decide +kernel] at h1
+  rw [show toBinary32 (.fin false (3602879701896397 / 36028797018963968)) = .fin false (13421773 / 134217728) by decide +kernel] at h2
+  exact ⟨h1, h2⟩
+
+/-- a correctly rounded result is exact iff the operand is itself a number of the format (which is how
+    `RangeError` expresses "inexact") -/
+theorem rounding_exact_iff (f : Format) (x d : Rat) (h : IsNearestEven f x d) : d = x ↔ f.Finite x :=
+  isNearestEven_exact_iff h
+
+example : IsNearestEven binary32 0 0 := isNearestEven_zero binary32 binary32_valid
+
+/-- Success with `v` exactly when the string is a floating numeral, its correctly rounded `double` value
+    `d` is delivered without range error, `d` is neither below `min` nor above `max`, and `v` is `d`
+    stored into the target (rounded correctly once more for `float`). -/
+theorem parsenum_float_ok_iff (t : FTy) (bs : List UInt8) (min max : Fl) (trailing : Bool) (v : Fl) :
     Model.ParsenumFloat.parsenum t bs min max 0 trailing = .ok v ↔
-      ∃ neg sub, FAccepts trailing (cstr bs) neg sub ∧ (toDouble neg sub).2 = .ok ∧
-        Fl.lt (toDouble neg sub).1 min = false ∧ Fl.lt max (toDouble neg sub).1 = false ∧
-        v = fstore t (toDouble neg sub).1 := by
-  unfold Model.ParsenumFloat.parsenum; rw [ex6_float, expectedF_ok_iff]
+      ∃ neg sub d, FAccepts trailing (cstr bs) neg sub ∧ Converts neg sub d ∧ ¬ ConvRangeError neg sub ∧
+        Fl.lt d min = false ∧ Fl.lt max d = false ∧
+        (t = .f64 → v = d) ∧ (t = .f32 → Narrows d v) := by
+  rw [parsenum_ok_iff_toDouble]
   constructor
-  · rintro ⟨h1, h2, h3, h4, h5, h6⟩
-    obtain ⟨neg, sub, hacc⟩ := (consumed_iff trailing (cstr bs)).mp ⟨h1, h2⟩
-    obtain ⟨e1, e2⟩ := strtod_of_accepts hacc
-    exact ⟨neg, sub, hacc, e2 ▸ h3, e1 ▸ h4, e1 ▸ h5, e1 ▸ h6⟩
-  · rintro ⟨neg, sub, hacc, h3, h4, h5, h6⟩
-    obtain ⟨h1, h2⟩ := (consumed_iff trailing (cstr bs)).mpr ⟨neg, sub, hacc⟩
-    obtain ⟨e1, e2⟩ := strtod_of_accepts hacc
-    exact ⟨h1, h2, e2 ▸ h3, e1 ▸ h4, e1 ▸ h5, e1 ▸ h6⟩
+  · rintro ⟨neg, sub, hacc, h1, h2, h3, rfl⟩
+    have hn := faccepts_nonneg hacc
+    have hc := toDouble_converts neg sub hn
+    refine ⟨neg, sub, _, hacc, hc, (toDouble_ok_iff neg sub hn).mp h1, h2, h3, ?_, ?_⟩
+    · rintro rfl; rfl
+    · rintro rfl; exact toBinary32_narrows _ (converts_nonneg hc)
+  · rintro ⟨neg, sub, d, hacc, hc, hr, h2, h3, h64, h32⟩
+    have hn := faccepts_nonneg hacc
+    have hd : d = (toDouble neg sub).1 := converts_unique hc (toDouble_converts neg sub hn)
+    subst hd
+    refine ⟨neg, sub, hacc, (toDouble_ok_iff neg sub hn).mpr hr, h2, h3, ?_⟩
+    cases t
+    · exact narrows_unique (h32 rfl) (toBinary32_narrows _ (converts_nonneg hc))
+    · exact h64 rfl
 
 -- "0x1.8p1" into a double within [0, 2^10]: 3
 example : (Model.ParsenumFloat.parsenum .f64 [0x30, 0x78, 0x31, 0x2e, 0x38, 0x70, 0x31] (.fin false 0) (.fin false 1024) 0 false
     matches .ok (.fin false 3)) = true := by decide +kernel
+-- "0.1" into a float: 13421773 · 2^-27 (rounded twice)
+example : (match Model.ParsenumFloat.parsenum .f32 [0x30, 0x2e, 0x31] (.inf true) (.inf false) 0 false with
+    | .ok v => decide (v = .fin false (13421773 / 134217728)) | _ => false) = true := by decide +kernel
 example : FAccepts false [0x2d, 0x2e, 0x35] true (.num ((5 : Rat) * ratPow 10 (0 - 1))) :=       -- "-.5"
   ⟨⟨[], .minus, .dec ⟨[], true, [0x35], none⟩⟩, rfl, by simp, rfl, 5, 1, 0, ⟨by simp, by simp, by decide, rfl, rfl⟩, rfl⟩
 
@@ -153,23 +251,24 @@ theorem parsenum_float_einval_iff (t : FTy) (bs : List UInt8) (min max : Fl) (tr
 example : (Model.ParsenumFloat.parsenum .f64 [0x31, 0x65] (.inf true) (.inf false) 0 false matches .einval) = true := by
   decide +kernel
 
-/-- ERANGE exactly when the string is a floating numeral whose `double` value is outside the bounds or
-    whose conversion overflowed / underflowed. -/
-theorem parsenum_float_erange_iff_partial (t : FTy) (bs : List UInt8) (min max : Fl) (trailing : Bool) :
+/-- ERANGE exactly when the string is a floating numeral whose correctly rounded `double` value is below
+    `min` or above `max`, or whose conversion has a range error (overflow; tiny and inexact). -/
+theorem parsenum_float_erange_iff (t : FTy) (bs : List UInt8) (min max : Fl) (trailing : Bool) :
     Model.ParsenumFloat.parsenum t bs min max 0 trailing = .erange ↔
-      ∃ neg sub, FAccepts trailing (cstr bs) neg sub ∧
-        (Fl.lt (toDouble neg sub).1 min = true ∨ Fl.lt max (toDouble neg sub).1 = true ∨
-          (toDouble neg sub).2 = .erange) := by
-  unfold Model.ParsenumFloat.parsenum; rw [ex6_float, expectedF_erange_iff]
+      ∃ neg sub d, FAccepts trailing (cstr bs) neg sub ∧ Converts neg sub d ∧
+        (Fl.lt d min = true ∨ Fl.lt max d = true ∨ ConvRangeError neg sub) := by
+  rw [parsenum_erange_iff_toDouble]
   constructor
-  · rintro ⟨h1, h2, h3⟩
-    obtain ⟨neg, sub, hacc⟩ := (consumed_iff trailing (cstr bs)).mp ⟨h1, h2⟩
-    obtain ⟨e1, e2⟩ := strtod_of_accepts hacc
-    exact ⟨neg, sub, hacc, e1 ▸ e2 ▸ h3⟩
-  · rintro ⟨neg, sub, hacc, h3⟩
-    obtain ⟨h1, h2⟩ := (consumed_iff trailing (cstr bs)).mpr ⟨neg, sub, hacc⟩
-    obtain ⟨e1, e2⟩ := strtod_of_accepts hacc
-    exact ⟨h1, h2, e1 ▸ e2 ▸ h3⟩
+  · rintro ⟨neg, sub, hacc, h⟩
+    have hn := faccepts_nonneg hacc
+    rw [toDouble_erange_iff neg sub hn] at h
+    exact ⟨neg, sub, _, hacc, toDouble_converts neg sub hn, h⟩
+  · rintro ⟨neg, sub, d, hacc, hc, h⟩
+    have hn := faccepts_nonneg hacc
+    have hd : d = (toDouble neg sub).1 := converts_unique hc (toDouble_converts neg sub hn)
+    subst hd
+    rw [← toDouble_erange_iff neg sub hn] at h
+    exact ⟨neg, sub, hacc, h⟩
 
 -- "1e400" overflows (strtod's own ERANGE survives); "5" is above max = 4
 example : (Model.ParsenumFloat.parsenum .f64 [0x31, 0x65, 0x34, 0x30, 0x30] (.inf true) (.inf false) 0 false matches .erange) = true := by
@@ -189,7 +288,7 @@ example : FAccepts true [0x69, 0x4e, 0x66, 0x69] false .inf := by            -- 
 theorem parsenum_float_nan_passes_bounds (t : FTy) (bs : List UInt8) (min max : Fl) (trailing neg : Bool)
     (h : FAccepts trailing (cstr bs) neg .nan) :
     Model.ParsenumFloat.parsenum t bs min max 0 trailing = .ok (fstore t .nan) := by
-  rw [parsenum_float_ok_iff_partial]
+  rw [parsenum_ok_iff_toDouble]
   exact ⟨neg, .nan, h, rfl, (nan_not_lt min).1, (nan_not_lt max).2, rfl⟩
 
 example : (Model.ParsenumFloat.parsenum .f64 [0x6e, 0x41, 0x6e] (.fin false 0) (.fin false 0) 0 false matches .ok .nan) = true := by
